@@ -534,6 +534,7 @@ func (r *Router) batch(w http.ResponseWriter, req *http.Request) {
 	dataset, err := getDatasetFromRequest(req)
 	if err != nil {
 		r.handlerReturnWithError(w, ErrReqToEvent, err)
+		return
 	}
 
 	apiKey := req.Header.Get(types.APIKeyHeader)
@@ -545,6 +546,7 @@ func (r *Router) batch(w http.ResponseWriter, req *http.Request) {
 	environment, err := r.getEnvironmentName(apiKey)
 	if err != nil {
 		r.handlerReturnWithError(w, ErrReqToEvent, err)
+		return
 	}
 
 	batchedEvents := newBatchedEvents(
@@ -618,7 +620,8 @@ func (router *Router) processOTLPRequest(
 	// get environment name - will be empty for legacy keys
 	environment, err := router.getEnvironmentName(apiKey)
 	if err != nil {
-		return nil
+		// none of the events can be processed: tell the caller instead of reporting success
+		return err
 	}
 	totalEvents := 0
 	for _, batch := range batches {
@@ -658,7 +661,8 @@ func (router *Router) processOTLPRequestBatchMsgp(
 	// get environment name - will be empty for legacy keys
 	environment, err := router.getEnvironmentName(apiKey)
 	if err != nil {
-		return nil
+		// none of the events can be processed: tell the caller instead of reporting success
+		return err
 	}
 	totalEvents := 0
 	for _, batch := range batches {
